@@ -191,7 +191,7 @@ def handler_correspondence(chk, hy, n):
         else:
             trees.append(t)
             exprs.append("outcome %s" % coq_hy(hy, t))
-    res = vlib.coq_eval(["HyV.Base.Text", "HyV.Valid.Compile", "HyV.Valid.Validate"], "", exprs, tag="c10h", shard=150)
+    res = vlib.coq_eval(["HyV.Base.Text", "HyV.Valid.Compile", "HyV.Valid.Validate"], "", exprs, tag="c10h", shard=250)
     for t, r in zip(trees, res):
         got = vc.coq_term(r)
         mres, mvalid = got[1], got[2] == "true"
